@@ -9,10 +9,13 @@
 //   all m | trainable m    get_all_parameters() / get_trainable_parameters() in std::map order
 //   getp m name...         get_parameter(std::vector<std::string>{name...})   (the list may be empty)
 //   getm m name...         get_submodel(std::vector<std::string>{name...})
-//   opt o sgd|mom          new optimizer (SGD: configure_parameter does nothing; MomentumSGD: needs statistics)
+//   opt o sgd|mom|rsgd|rmom  new optimizer.  sgd / mom: subclasses of primitiv::Optimizer defined here that
+//                          configure like SGD (nothing) / MomentumSGD (has_stats + add_stats) and count the
+//                          configure_parameter calls per Parameter; rsgd / rmom: the library's own classes
 //   optaddp o p            Optimizer::add(Parameter &)
 //   optaddm o m            Optimizer::add(Model &)
-//   optparams o            the registered parameters (observed through update(), see RecOpt)
+//   optparams o            the registered parameters (observed through update(), see RecOpt), for sgd / mom
+//                          as id:number-of-configure_parameter-calls
 //
 // Names travel hex-encoded with an `x` prefix (`x` alone is the empty string).
 // Objects are never destroyed in the middle of a history (only by `reset`),
@@ -43,9 +46,31 @@ struct RecOpt : public Base {
   void update_parameter(float, Parameter &p) override { seen.push_back(&p); }
 };
 
+// Optimizer::add_inner is code of the base class; SGD::configure_parameter and
+// MomentumSGD::configure_parameter are private, so a subclass of those cannot
+// both count the calls and forward them.  This subclass of the base class does
+// what the two do (optimizer_impl.cc:20, :38-43) and counts every call, whether
+// it returns or throws.
+struct CountOpt : public Optimizer {
+  bool needs_stats;
+  std::map<const Parameter *, unsigned> calls;
+  std::vector<const Parameter *> seen;
+  explicit CountOpt(bool ns) : needs_stats(ns) {}
+  void configure_parameter(Parameter &param) override {
+    ++calls[&param];
+    if (!needs_stats) return;
+    const std::string name = "MomentumSGD.m";
+    if (!param.has_stats(name)) {
+      param.add_stats(name, param.shape());
+    }
+  }
+  void update_parameter(float, Parameter &p) override { seen.push_back(&p); }
+};
+
 struct OptBox {
   std::unique_ptr<Optimizer> opt;
   std::vector<const Parameter *> *seen;
+  std::map<const Parameter *, unsigned> *calls;
 };
 
 devices::Naive *g_dev = nullptr;
@@ -186,12 +211,16 @@ std::string exec(const std::vector<std::string> &w) {
   if (op == "opt" && n == 3) {
     if (vh::to_u64(w[1]) != g_opts.size()) throw BadOp();
     OptBox b;
-    if (w[2] == "sgd") {
+    b.calls = nullptr;
+    if (w[2] == "rsgd") {
       auto *o = new RecOpt<optimizers::SGD>();
       b.opt.reset(o); b.seen = &o->seen;
-    } else if (w[2] == "mom") {
+    } else if (w[2] == "rmom") {
       auto *o = new RecOpt<optimizers::MomentumSGD>();
       b.opt.reset(o); b.seen = &o->seen;
+    } else if (w[2] == "sgd" || w[2] == "mom") {
+      auto *o = new CountOpt(w[2] == "mom");
+      b.opt.reset(o); b.seen = &o->seen; b.calls = &o->calls;
     } else {
       throw BadOp();
     }
@@ -214,18 +243,24 @@ std::string exec(const std::vector<std::string> &w) {
     OptBox &b = g_opts[idx(w[1], g_opts.size())];
     b.seen->clear();
     b.opt->update();
-    std::vector<std::size_t> ids;
+    std::vector<std::pair<std::size_t, unsigned>> ids;
     for (const Parameter *p : *b.seen) {
       auto it = g_pid.find(p);
       if (it == g_pid.end()) return "ok unknown-pointer";
-      ids.push_back(it->second);
+      unsigned n = 0;
+      if (b.calls) {
+        auto c = b.calls->find(p);
+        if (c != b.calls->end()) n = c->second;
+      }
+      ids.push_back(std::make_pair(it->second, n));
     }
     std::sort(ids.begin(), ids.end());
     if (ids.empty()) return "ok -";
     std::string out = "ok ";
     for (std::size_t i = 0; i < ids.size(); ++i) {
       if (i) out += ",";
-      out += std::to_string(ids[i]);
+      out += std::to_string(ids[i].first);
+      if (b.calls) out += ":" + std::to_string(ids[i].second);
     }
     return out;
   }
